@@ -1,5 +1,6 @@
 SPECIFICATION Spec
 CONSTANTS
+  EarlyOrder = "cc-first"
   Clients = {"c1"}
   Backlog = 1
   Mius = {128}
